@@ -1,5 +1,96 @@
 import RV.Json
+import RV.Drv.Arith
+import RV.Model.Executor
+import RV.Oracle.Executor
 namespace RV.Drv.Executor
-open Lean RV
-def handle : Handler := fun op _ _ => .error s!"Executor: op {op} not implemented"
+open Lean RV RV.Arith RV.Executor RV.Drv.Arith
+
+def phaseOf : String → Phase
+  | "" => .empty | "Preparing" => .preparing | "Progressing" => .progressing
+  | "Finalizing" => .finalizing | "Completed" => .completed | _ => .other
+def phaseStr : Phase → String
+  | .empty => "" | .preparing => "Preparing" | .progressing => "Progressing"
+  | .finalizing => "Finalizing" | .completed => "Completed" | .other => "Weird"
+def bstateOf : String → BState
+  | "" => .empty | "Upgrading" => .upgrading | "Verifying" => .verifying | "Ready" => .ready | _ => .other
+def bstateStr : BState → String
+  | .empty => "" | .upgrading => "Upgrading" | .verifying => "Verifying" | .ready => "Ready" | .other => "Weird"
+def hashOf : String → HashObs
+  | "empty" => .empty | "same" => .same | _ => .differs
+def hashStr : HashObs → String
+  | .empty => "empty" | .same => "same" | .differs => "differs"
+def ownerOf : String → Owner
+  | "this" => .this | "other" => .other | _ => .none
+def ownerStr : Owner → String
+  | .this => "this" | .other => "other" | .none => "none"
+
+def statusOfJson (j : Json) : R Status := do
+  return { phase := phaseOf (← fStr j "phase"), currentBatch := ← fInt j "currentBatch",
+           batchState := bstateOf (← fStr j "batchState"), hasReadyTime := ← fBool j "hasReadyTime",
+           hash := hashOf (← fStr j "hash"), rolloutIDSame := ← fBool j "rolloutIDSame",
+           observedReplicas := ← fInt j "observedReplicas", updateRevision := ← fStr j "updateRevision",
+           stableRevision := ← fStr j "stableRevision", noNeedUpdate := ← fOptInt j "noNeedUpdate",
+           updated := ← fInt j "updated", updatedReady := ← fInt j "updatedReady" }
+
+def statusToJson (s : Status) : Json :=
+  mkObj [("phase", strJ (phaseStr s.phase)), ("currentBatch", intJ s.currentBatch),
+    ("batchState", strJ (bstateStr s.batchState)), ("hasReadyTime", boolJ s.hasReadyTime),
+    ("hash", strJ (hashStr s.hash)), ("rolloutIDSame", boolJ s.rolloutIDSame),
+    ("observedReplicas", intJ s.observedReplicas), ("updateRevision", strJ s.updateRevision),
+    ("stableRevision", strJ s.stableRevision), ("noNeedUpdate", optJ intJ s.noNeedUpdate),
+    ("updated", intJ s.updated), ("updatedReady", intJ s.updatedReady)]
+
+def brOfJson (j : Json) : R BR := do
+  return { batches := ← (← fArrD j "batches").mapM iosOfJson, partition := ← fOptInt j "partition",
+           failureThreshold := ← iosOptOfJson j "failureThreshold", deleting := ← fBool j "deleting",
+           hasFinalizer := ← fBool j "hasFinalizer", rollbackAnno := ← fBool j "rollbackAnno",
+           status := ← statusOfJson (← jget j "status") }
+
+def wlOfJson (j : Json) : R Workload := do
+  return { replicas := ← fInt j "replicas", generation := ← fInt j "generation",
+           observedGeneration := ← fInt j "observedGeneration", statusReplicas := ← fInt j "statusReplicas",
+           updated := ← fInt j "updated", updatedReady := ← fInt j "updatedReady",
+           updateRevision := ← fStr j "updateRevision", currentRevision := ← fStr j "currentRevision",
+           partition := ← iosOptOfJson j "partition", paused := ← fBool j "paused", owner := ownerOf (← fStr j "owner") }
+
+def wlToJson (w : Workload) : Json :=
+  mkObj [("replicas", intJ w.replicas), ("generation", intJ w.generation), ("observedGeneration", intJ w.observedGeneration),
+    ("statusReplicas", intJ w.statusReplicas), ("updated", intJ w.updated), ("updatedReady", intJ w.updatedReady),
+    ("updateRevision", strJ w.updateRevision), ("currentRevision", strJ w.currentRevision),
+    ("partition", optJ iosToJson w.partition), ("paused", boolJ w.paused), ("owner", strJ (ownerStr w.owner))]
+
+def outToJson (o : StepOut) : Json :=
+  mkObj [("br", match o.br with
+            | none => .null
+            | some b => mkObj [("hasFinalizer", boolJ b.hasFinalizer), ("status", statusToJson b.status)]),
+         ("wl", optJ wlToJson o.wl), ("requeue", boolJ o.requeue), ("err", boolJ o.err)]
+
+def handle : Handler := fun op inp impl => do
+  match op with
+  | "reconcile" =>
+    let br ← brOfJson (← jget inp "br")
+    let wl ← (match jopt inp "wl" with
+      | none => pure none
+      | some w => do pure (some (← wlOfJson w)))
+    let tags := [s!"phase:{phaseStr br.status.phase}", s!"state:{bstateStr br.status.batchState}",
+      if wl.isSome then "wl" else "nowl", if br.deleting then "deleting" else "live",
+      if br.partition.isSome then "partitioned" else "nopartition"]
+    -- oracles on the implementation's output
+    let holds ← (match jopt impl "panic" with
+      | some _ => pure [("C09.executor_no_panic", RV.Oracle.Executor.panicAllowed br)]
+      | none => do
+        let ibr ← (match jopt impl "br" with
+          | none => pure none
+          | some b => do
+            let st ← statusOfJson (← jget b "status")
+            pure (some { br with hasFinalizer := ← fBool b "hasFinalizer", status := st }))
+        let iwl ← (match jopt impl "wl" with
+          | none => pure none
+          | some w => do pure (some (← wlOfJson w)))
+        pure (RV.Oracle.Executor.stepOracles br wl ibr iwl))
+    match reconcile br wl with
+    | .panic => return { model := mkObj [("panic", strJ "?")], holds := holds, tags := "panic" :: tags }
+    | .val o => return { model := outToJson o, holds := holds, tags := tags }
+  | _ => .error s!"executor: unknown op {op}"
+
 end RV.Drv.Executor
